@@ -723,6 +723,12 @@ func c06VsDecoder(c *ev.Ctx, dp *dump.Dump, sf *specdec.File, wit func(string, a
 			}
 			continue
 		}
+		if len(so.External) > 0 && len(o.Read) > 0 {
+			// the element values are in other files (External Data Files message) which the
+			// library does not open: whatever numbers it returns did not come from the data
+			c.Violation("decoder-diff:values-for-external-storage:"+o.Path, wit(o.Path, map[string]any{"external_files": len(so.External), "returned": len(o.Read), "first": math.Float64frombits(o.Read[0])}))
+			continue
+		}
 		raw, err := sf.ReadData(so)
 		if err != nil {
 			continue
@@ -820,7 +826,7 @@ func c06AttrsVsDecoder(c *ev.Ctx, dp *dump.Dump, sf *specdec.File, wit func(stri
 var C06 = &ev.Property{
 	ID:    "C06",
 	Level: "exploration",
-	Rule: "one case per file of the bundled reference corpus (testdata/*.h5, testdata/hdf5_official, testdata/reference, testdata/c-library-corpus; the corpus is enumerated completely in both tiers): the file is opened with the library's reader and dumped completely (Walk, Info, Read, ReadStrings, ReadCompound, Attributes, ReadValue); what the reader returned without error is compared (1) with every h5dump DDL of testdata/hdf5_official/ddl that names the file (members incl. links, kinds, shapes, datatype class/size/sign/order, element values with %g tolerance for floats, strings, compound members, attribute names and values; only complete dumps are compared value-wise) and (2) with the independent decoder's values for every numeric dataset and every variable-length string attribute (element by element through the global heap). " +
+	Rule: "one case per file of the bundled reference corpus (testdata/*.h5, testdata/hdf5_official, testdata/reference, testdata/c-library-corpus; the corpus is enumerated completely in both tiers): the file is opened with the library's reader and dumped completely (Walk, Info, Read, ReadStrings, ReadCompound, Attributes, ReadValue); what the reader returned without error is compared (1) with every h5dump DDL of testdata/hdf5_official/ddl that names the file (members incl. links, kinds, shapes, datatype class/size/sign/order, element values with %g tolerance for floats, strings, compound members, attribute names and values; only complete dumps are compared value-wise) and (2) with the independent decoder's values for every numeric dataset and every variable-length string attribute (element by element through the global heap); numbers returned for a dataset whose values are stored in external files (which the library does not open) are a violation. " +
 		"distinct = file; a file is non-trivial when it is non-empty.",
 	Assumptions: []string{
 		"h5dump prints floating point with 6 significant digits: float comparisons allow a relative error of 1e-5, integers must be exact",
